@@ -175,6 +175,8 @@ def bi_type(ex, args, kw):
             return LibFn("builtins", n)
     if v is None:
         return LibFn("builtins", "NoneType")
+    if hasattr(v, "etype"):
+        return ExcClass(v.etype)
     raise Unsupported(f"type() of {typetag(v)}")
 
 
